@@ -78,7 +78,30 @@ def gen_matrix(rng, nmax):
     return {"n": n, "colptr": colptr, "rowind": rowind, "val": val, "kind": kind}
 
 
+def gen_branchchain(rng):
+    """a long upper-bidiagonal chain X (columns 0..m-1) and a short dense chain Y (columns m..m+y-1) that meet at a branch column K
+    which brings no row not seen before (natural order = postorder): whether K starts a supernode is decided by the etree alone,
+    and with several workers Y is numbered long before the top of X"""
+    m = rng.randint(40, 160); y = rng.randint(2, 3); K = m + y; n = K + rng.randint(2, 3)
+    pat = set((j, j) for j in range(n)) | set((j - 1, j) for j in range(1, m))
+    for j in range(m, m + y):
+        pat |= set((i, j) for i in range(j, n))
+    pat |= {(m - 1, K)} | set((i, K) for i in range(K, n))
+    for j in range(K + 1, n):
+        pat |= set((i, j) for i in range(K, n))
+    colptr, rowind, val = [0], [], []
+    for j in range(n):
+        for i in sorted(i for (i, jj) in pat if jj == j):
+            rowind.append(i); val.append(10.0 + rng.random() if i == j else rng.uniform(0.5, 1.5))
+        colptr.append(len(rowind))
+    return {"n": n, "colptr": colptr, "rowind": rowind, "val": val, "kind": "branchchain"}
+
+
 def gen_run(rng, idx, nmax, quick):
+    if idx % 8 == 5:
+        M = gen_branchchain(rng)
+        return dict(M, op="factor", id="f%d" % idx, nprocs=rng.choice([2, 3, 4]), permc=0, panel=1, relax=1, maxsuper=rng.choice([8, 100]),
+                    refact=0, lwork=0, perturb=rng.randint(1, 10 ** 6))
     M = gen_matrix(rng, nmax)
     n = M["n"]
     refact = 1 if rng.random() < 0.3 else 0
